@@ -1263,7 +1263,29 @@ func (r *JobRun) tickOp(op *Op, i int) *Violation {
 			for k, x := range given {
 				if x == last {
 					stopAt = k
+					break
 				}
+			}
+		}
+		// (c') an id the run meets more than once (the source corrected it): every occurrence before the stop that
+		// was not rejected was delivered
+		occ, accN, rejN := map[string]int{}, map[string]int{}, map[string]int{}
+		for k, x := range given {
+			if k < stopAt || (k == stopAt && !stopped) {
+				occ[x]++
+			}
+		}
+		for _, b := range first.accepted {
+			for _, x := range b {
+				accN[x]++
+			}
+		}
+		for _, x := range first.singleReject {
+			rejN[x]++
+		}
+		for _, x := range sortedKeys(occ) {
+			if occ[x] > 1 && accN[x] < occ[x]-rejN[x] {
+				return viol("C17", "error-handling", "good-entity-not-delivered", "cell %s: the run met %s %d times before its end, the sink rejected it %d time(s) and was handed it %d time(s): an acceptable version was never delivered (accepted batches %v)", cell, shortURI(x), occ[x], rejN[x], accN[x], first.accepted)
 			}
 		}
 		// (c) every other entity before the stop was delivered, none after it
